@@ -12,7 +12,8 @@ def G0 := SpyneModel.Generated.facts02
 def goodFacts : Facts02 :=
   { occCount := .perItem, mpNameAnyKey := true, nullComplexIsNone := true, repeatedScalarFault := true,
     leafKindFault := true, boolCoerced := true, utf8Fault := true, jsonNullDateOk := true, intFromFloat := true,
-    nativeKindFault := true, binKindFault := true, rawBytesKindFault := true, nestedArrayOk := true, parseErrorsFault := true, binTextValidated := true, missingBodyFault := true }
+    nativeKindFault := true, binKindFault := true, rawBytesKindFault := true, nestedArrayOk := true, parseErrorsFault := true, binTextValidated := true, missingBodyFault := true,
+    guardPathLocal := true, fileFormValidated := true }
 
 def jText (j : Json) : Text :=
   match j with
@@ -131,6 +132,14 @@ partial def jVal (j : Json) : Val :=
     ("o", fun v => let a := jArr v
        .obj (jText (a[0]?.getD .null)) (pairList (a[1]?.getD .null) (fun n x => (jText n, jVal x))))]
 
+/-- the Python objects at the nodes of a value: `{"o": …, "id": n}` nodes with the same `n` are one object -/
+partial def jIds (j : Json) : Ids :=
+  objCase j Ids.anon [
+    ("l", fun v => .node none ((jArr v).toList.map jIds)),
+    ("o", fun v => let a := jArr v
+       .node (match j.getObjVal? "id" with | .ok (Json.num n) => some n.mantissa.toNat | _ => none)
+             (pairList (a[1]?.getD .null) (fun _ x => jIds x)))]
+
 def jKey (j : Json) : Key :=
   objCase j Key.other [("s", fun v => .str (jText v)), ("x", fun v => .bytes (jNats v)), ("i", fun v => .int (jBig v))]
 
@@ -211,8 +220,10 @@ def step (j : Json) : Json :=
       | _ => .doc (jDoc (jField pj "doc"))
     resJson valJson (serverRun F G cfg R (jTy (jField j "ty")) p)
   | "decode" => resJson valJson (decode F G cfg R (jTy (jField j "ty")) (jDoc (jField j "doc")))
-  | "encode" => Json.mkObj [("ok", docJson (encode F cfg R (jTy (jField j "ty")) (jVal (jField j "val"))))]
-  | "response" => Json.mkObj [("ok", docJson (encodeResponse F cfg R (getStr j "method").toList (jTy (jField j "ty")) (jVal (jField j "val"))))]
+  | "encode" => Json.mkObj [("ok", docJson (encodeIds F cfg R G (jTy (jField j "ty")) (jVal (jField j "val")) (jIds (jField j "val"))))]
+  | "response" => Json.mkObj [("ok", docJson (encodeResponseIds F cfg R G (getStr j "method").toList (jTy (jField j "ty"))
+                                                (jVal (jField j "val")) (jIds (jField j "val"))))]
+  | "acyclic" => Json.mkObj [("ok", .bool (acyclic [] (jIds (jField j "val"))))]
   | "conforms" => Json.mkObj [("ok", .bool (conforms (jTy (jField j "ty")) (jVal (jField j "val"))))]
   | "utf8enc" => Json.mkObj [("ok", nats (utf8Enc (jText (jField j "s"))))]
   | "utf8dec" => (match utf8Dec (jNats (jField j "b")) with
